@@ -55,13 +55,15 @@ Proof.
 Qed.
 
 Lemma wf_flat U c ffs : wf_universe U = true -> flat_fields U c = Some ffs ->
-  nodup_text (map f_name ffs) = true /\ flat_content_ok ffs = true.
+  nodup_text (map f_name ffs ++ sub_names ffs) = true /\ flat_content_ok ffs = true /\ forallb field_shape_ok ffs = true.
 Proof.
   intros Hwf Hf. destruct (flat_some_cls U c ffs Hf) as [cl Hc].
   pose proof (wf_from_nth U U 0 Hwf c cl Hc) as Hok. cbn in Hok. unfold cls_ok in Hok.
   rewrite Hf in Hok. apply andb_true_iff in Hok. destruct Hok as [_ Hok].
-  apply andb_true_iff in Hok. exact Hok.
+  apply andb_true_iff in Hok. destruct Hok as [Hok H3]. apply andb_true_iff in Hok. destruct Hok as [H1 H2]. auto.
 Qed.
+
+
 
 Lemma find_field_nodup fs : nodup_text (map f_name fs) = true ->
   forall f, In f fs -> find_field (f_name f) fs = Some f.
@@ -76,6 +78,133 @@ Proof.
     congruence.
   - apply IH; assumption.
 Qed.
+
+(* ------------------------------------------------------------------ wire names and the alternate-key lookup *)
+Lemma text_mem_app x l1 l2 : text_mem x (l1 ++ l2) = text_mem x l1 || text_mem x l2.
+Proof. induction l1 as [|y l1 IH]; cbn; [reflexivity|]. rewrite IH, orb_assoc. reflexivity. Qed.
+
+Lemma nodup_app l1 : forall l2, nodup_text (l1 ++ l2) = true ->
+  nodup_text l1 = true /\ nodup_text l2 = true /\ (forall x, In x l1 -> In x l2 -> False).
+Proof.
+  induction l1 as [|y l1 IH]; intros l2 H; cbn in *; [repeat split; auto|].
+  apply andb_true_iff in H. destruct H as [H1 H2]. apply negb_true_iff in H1. rewrite text_mem_app in H1.
+  apply orb_false_iff in H1. destruct H1 as [A B]. destruct (IH l2 H2) as [I1 [I2 I3]].
+  split; [rewrite A, I1; reflexivity|]. split; [exact I2|].
+  intros x [<-|Hx] Hx2; [|eauto]. apply text_mem_In in Hx2. congruence.
+Qed.
+
+Definition wire_ok (fs : list field) : Prop := nodup_text (map f_name fs ++ sub_names fs) = true.
+
+Lemma sub_names_in fs : forall f n, In f fs -> f_sub_name f = Some n -> In n (sub_names fs).
+Proof.
+  induction fs as [|g fs IH]; intros f n Hin Hs; [destruct Hin|]. cbn [sub_names]. destruct Hin as [<-|Hin].
+  - rewrite Hs. left. reflexivity.
+  - destruct (f_sub_name g); [right|]; eapply IH; eauto.
+Qed.
+
+Lemma sub_name_inj fs : nodup_text (sub_names fs) = true -> forall f g n, In f fs -> In g fs ->
+  f_sub_name f = Some n -> f_sub_name g = Some n -> f = g.
+Proof.
+  induction fs as [|h fs IH]; intros Hn f g n Hf Hg Sf Sg; [destruct Hf|].
+  cbn [sub_names] in Hn. destruct (f_sub_name h) as [m|] eqn:Eh.
+  - cbn in Hn. apply andb_true_iff in Hn. destruct Hn as [N1 N2]. apply negb_true_iff in N1.
+    assert (forall x, In x fs -> f_sub_name x = Some m -> False) as Hno.
+    { intros x Hx Sx. assert (text_mem m (sub_names fs) = true) as X by (apply text_mem_In; eapply sub_names_in; eauto). congruence. }
+    destruct Hf as [<-|Hf], Hg as [<-|Hg]; [reflexivity| | |eauto].
+    + exfalso. rewrite Eh in Sf. injection Sf as <-. eauto.
+    + exfalso. rewrite Eh in Sg. injection Sg as <-. eauto.
+  - destruct Hf as [<-|Hf]; [congruence|]. destruct Hg as [<-|Hg]; [congruence|]. eauto.
+Qed.
+
+Lemma find_field_none k fs : ~ In k (map f_name fs) -> find_field k fs = None.
+Proof.
+  induction fs as [|g fs IH]; intro H; cbn; [reflexivity|].
+  rewrite text_eqb_neq; [apply IH; intro X; apply H; right; exact X|]. intro E. apply H. left. exact E.
+Qed.
+
+Lemma name_inj fs f g : nodup_text (map f_name fs) = true -> In f fs -> In g fs -> f_name f = f_name g -> f = g.
+Proof.
+  intros Hn Hf Hg E. pose proof (find_field_nodup fs Hn f Hf) as A. pose proof (find_field_nodup fs Hn g Hg) as B.
+  rewrite E in A. congruence.
+Qed.
+
+Lemma wname_inj fs f g : wire_ok fs -> In f fs -> In g fs -> wname f = wname g -> f = g.
+Proof.
+  intros Hw Hf Hg E. destruct (nodup_app _ _ Hw) as [N1 [N2 N3]]. unfold wname in E.
+  destruct (f_sub_name f) as [n|] eqn:Sf; destruct (f_sub_name g) as [m|] eqn:Sg.
+  - subst m. exact (sub_name_inj fs N2 f g n Hf Hg Sf Sg).
+  - exfalso. apply (N3 n); [rewrite E; apply in_map; exact Hg|exact (sub_names_in fs f n Hf Sf)].
+  - exfalso. apply (N3 m); [rewrite <- E; apply in_map; exact Hf|exact (sub_names_in fs g m Hg Sg)].
+  - eapply name_inj; eauto.
+Qed.
+
+Lemma find_by_unique p fs f : In f fs -> p f = true -> (forall g, In g fs -> p g = true -> g = f) -> find_by p fs = Some f.
+Proof.
+  induction fs as [|h fs IH]; intros Hin Hp Hu; [destruct Hin|]. cbn [find_by].
+  destruct (p h) eqn:Eh; [f_equal; apply Hu; [left; reflexivity|exact Eh]|].
+  destruct Hin as [->|Hin]; [congruence|]. apply IH; [exact Hin|exact Hp|]. intros g Hg. apply Hu. right. exact Hg.
+Qed.
+
+Lemma find_by_none p fs : (forall g, In g fs -> p g = false) -> find_by p fs = None.
+Proof.
+  induction fs as [|h fs IH]; intro H; [reflexivity|]. cbn [find_by]. rewrite (H h (or_introl eq_refl)).
+  apply IH. intros g Hg. apply H. right. exact Hg.
+Qed.
+
+(** a renamed member is not found under flat_type_info.get(wire name) *)
+Lemma find_field_wire_none fs f n : wire_ok fs -> In f fs -> f_sub_name f = Some n -> find_field n fs = None.
+Proof.
+  intros Hw Hf Sf. destruct (nodup_app _ _ Hw) as [_ [_ N3]]. apply find_field_none.
+  intro X. apply (N3 n X). exact (sub_names_in fs f n Hf Sf).
+Qed.
+
+(** the element written for a member is resolved to that member: by its key, else by the bare alternate
+    key (sub_name only), else by the qualified alternate key (sub_ns) *)
+Lemma lookup_member_ok fs f dns : wire_ok fs -> In f fs -> f_sub_ns f <> Some [] ->
+  lookup_member fs fs (wns dns f) (wname f) = Some f.
+Proof.
+  intros Hw Hf Hne. unfold lookup_member. destruct (nodup_app _ _ Hw) as [N1 _].
+  destruct (f_sub_name f) as [n|] eqn:Sf.
+  - assert (wname f = n) as Wn by (unfold wname; rewrite Sf; reflexivity). rewrite Wn.
+    rewrite (find_field_wire_none fs f n Hw Hf Sf).
+    destruct (f_sub_ns f) as [s|] eqn:Ss.
+    + rewrite find_by_none.
+      * apply find_by_unique; [exact Hf| |].
+        -- unfold alt_q, wns. rewrite Ss, Wn, !text_eqb_refl. reflexivity.
+        -- intros g Hg Pg. unfold alt_q in Pg. destruct (f_sub_ns g); [|discriminate].
+           apply andb_true_iff in Pg. destruct Pg as [_ Pg]. apply text_eqb_eq in Pg. symmetry.
+           eapply wname_inj; eauto. congruence.
+      * intros g Hg. unfold alt_bare. destruct (f_sub_ns g) eqn:Sg; [reflexivity|].
+        destruct (f_sub_name g) as [m|] eqn:Sm; [|reflexivity].
+        destruct (text_eqb m n) eqn:E; [|reflexivity]. apply text_eqb_eq in E. subst m.
+        assert (f = g) by (exact (sub_name_inj fs (proj1 (proj2 (nodup_app _ _ Hw))) f g n Hf Hg Sf Sm)). subst g. congruence.
+    + rewrite (find_by_unique (alt_bare n) fs f Hf); [reflexivity| |].
+      * unfold alt_bare. rewrite Ss, Sf, text_eqb_refl. reflexivity.
+      * intros g Hg Pg. unfold alt_bare in Pg. destruct (f_sub_ns g); [discriminate|].
+        destruct (f_sub_name g) as [m|] eqn:Sm; [|discriminate]. apply text_eqb_eq in Pg. subst m.
+        exact (sub_name_inj fs (proj1 (proj2 (nodup_app _ _ Hw))) g f n Hg Hf Sm Sf).
+  - assert (wname f = f_name f) as Wn by (unfold wname; rewrite Sf; reflexivity). rewrite Wn.
+    rewrite (find_field_nodup fs N1 f Hf). reflexivity.
+Qed.
+
+Lemma lookup_attr_ok fs f : wire_ok fs -> In f fs -> f_sub_ns f = None ->
+  lookup_attr fs fs [] (wname f) = Some f.
+Proof.
+  intros Hw Hf Ss. unfold lookup_attr. cbn [clark]. destruct (nodup_app _ _ Hw) as [N1 _].
+  destruct (f_sub_name f) as [n|] eqn:Sf.
+  - assert (wname f = n) as Wn by (unfold wname; rewrite Sf; reflexivity). rewrite Wn.
+    rewrite (find_field_wire_none fs f n Hw Hf Sf).
+    apply find_by_unique; [exact Hf| |].
+    + unfold alt_bare. rewrite Ss, Sf, text_eqb_refl. reflexivity.
+    + intros g Hg Pg. unfold alt_bare in Pg. destruct (f_sub_ns g); [discriminate|].
+      destruct (f_sub_name g) as [m|] eqn:Sm; [|discriminate]. apply text_eqb_eq in Pg. subst m.
+      exact (sub_name_inj fs (proj1 (proj2 (nodup_app _ _ Hw))) g f n Hg Hf Sm Sf).
+  - assert (wname f = f_name f) as Wn by (unfold wname; rewrite Sf; reflexivity). rewrite Wn.
+    rewrite (find_field_nodup fs N1 f Hf). reflexivity.
+Qed.
+
+Lemma alt_inherited : xw_alt_inherited = true.
+Proof. reflexivity. Qed.
 
 Lemma mapM_Forall2 {A B} (f : A -> out B) (P : A -> B -> Prop) l :
   (forall x, In x l -> exists y, f x = Ok y /\ P x y) ->
@@ -228,29 +357,30 @@ Section RT.
     Variable k : nat.
     Hypothesis IH : rt_stmt k.
     Variable fields : list field.
+    Hypothesis Hwire : wire_ok fields.
     Let decf := fun f : field => dec k (f_ty f) (f_nillable f).
 
     (** one single-valued element *)
-    Lemma block_single f ns a tx ks v st fr rest :
-      find_field (f_name f) fields = Some f -> f_kind f = KElem -> is_multi f = false ->
-      decf f (XElt ns (f_name f) a tx ks) = Ok v ->
-      dec_kids decf fields (XElt ns (f_name f) a tx ks :: rest) st fr
-      = dec_kids decf fields rest (setattr st (f_name f) v) (f_name f :: fr).
+    Lemma block_single f ens a tx ks v st fr rest :
+      lookup_member fields fields ens (wname f) = Some f -> f_kind f = KElem -> is_multi f = false ->
+      decf f (XElt ens (wname f) a tx ks) = Ok v ->
+      dec_kids decf fields fields (XElt ens (wname f) a tx ks :: rest) st fr
+      = dec_kids decf fields fields rest (setattr st (f_name f) v) (f_name f :: fr).
     Proof. intros Hf Hk Hm Hd. cbn [dec_kids]. rewrite Hf, Hk, Hd. cbn [bind]. rewrite read_multi_eq, Hm. reflexivity. Qed.
 
     (** a run of elements of one max_occurs > 1 member *)
-    Lemma block_multi f : find_field (f_name f) fields = Some f -> f_kind f = KElem -> is_multi f = true ->
+    Lemma block_multi f ens : lookup_member fields fields ens (wname f) = Some f -> f_kind f = KElem -> is_multi f = true ->
       forall es vs,
-        Forall2 (fun e v => (exists ns a tx ks, e = XElt ns (f_name f) a tx ks) /\ decf f e = Ok v) es vs ->
+        Forall2 (fun e v => (exists a tx ks, e = XElt ens (wname f) a tx ks) /\ decf f e = Ok v) es vs ->
         forall st fr l, as_list (getattr st (f_name f)) = Ok l ->
         exists st',
-          (forall rest, dec_kids decf fields (es ++ rest) st fr
-                        = dec_kids decf fields rest st' (repeat (f_name f) (length es) ++ fr))
+          (forall rest, dec_kids decf fields fields (es ++ rest) st fr
+                        = dec_kids decf fields fields rest st' (repeat (f_name f) (length es) ++ fr))
           /\ (es <> [] -> getattr st' (f_name f) = VList (l ++ vs))
           /\ (es = [] -> st' = st)
           /\ (forall key, key <> f_name f -> getattr st' key = getattr st key).
     Proof.
-      intros Hf Hk Hm es vs H. induction H as [|e v es vs [[ns [a [tx [ks ->]]]] Hd] Hrest IHf]; intros st fr l Hl.
+      intros Hf Hk Hm es vs H. induction H as [|e v es vs [[a [tx [ks ->]]] Hd] Hrest IHf]; intros st fr l Hl.
       - exists st. repeat split; try reflexivity; try congruence.
       - set (st1 := setattr st (f_name f) (VList (l ++ [v]))).
         destruct (IHf st1 (f_name f :: fr) (l ++ [v])) as [st' [H1 [H2 [H3 H4]]]].
@@ -279,14 +409,14 @@ Section RT.
     Definition kids_pass (f : field) (x : val) (blk : list xnode) : Prop :=
       forall st fr, getattr st (f_name f) = dval f x ->
         exists st' fr',
-          (forall rest, dec_kids decf fields (map wire blk ++ rest) st fr = dec_kids decf fields rest st' fr')
+          (forall rest, dec_kids decf fields fields (map wire blk ++ rest) st fr = dec_kids decf fields fields rest st' fr')
           /\ getattr st' (f_name f) = kval f x
           /\ (forall key, key <> f_name f -> getattr st' key = getattr st key)
           /\ (forall key, count_text key fr' = (if text_eqb (f_name f) key then kocc f x else 0) + count_text key fr).
     Definition atts_pass (f : field) (x : val) (ats : list attr) : Prop :=
       forall st fr, getattr st (f_name f) = kval f x ->
         exists st' fr',
-          (forall rest, dec_atts L C fields (ats ++ rest) st fr = dec_atts L C fields rest st' fr')
+          (forall rest, dec_atts L C fields fields (ats ++ rest) st fr = dec_atts L C fields fields rest st' fr')
           /\ getattr st' (f_name f) = norm_field (norm k) f x
           /\ (forall key, key <> f_name f -> getattr st' key = getattr st key)
           /\ (forall key, count_text key fr' = (if text_eqb (f_name f) key then occ f x - kocc f x else 0) + count_text key fr).
@@ -315,14 +445,14 @@ Section RT.
     (** one element produced by the induction hypothesis *)
     Lemma one_elt f dns y :
       xconf k (f_ty f) y = true -> (nonelike y = true -> f_nillable f = true) ->
-      exists a tx ks, enc k (f_ty f) dns (f_name f) y = Ok (XElt dns (f_name f) a tx ks)
-                      /\ decf f (wire (XElt dns (f_name f) a tx ks)) = Ok (norm k (f_ty f) y).
+      exists a tx ks, enc k (f_ty f) dns (wname f) y = Ok (XElt dns (wname f) a tx ks)
+                      /\ decf f (wire (XElt dns (wname f) a tx ks)) = Ok (norm k (f_ty f) y).
     Proof.
       intros Hx Hn. apply IH; [exact Hx|]. intro Hy. rewrite (Hn Hy). cbn. apply andb_false_r.
     Qed.
 
     Lemma field_rt dns f x nk :
-      find_field (f_name f) fields = Some f ->
+      In f fields -> field_shape_ok f = true ->
       field_conf (xconf k) f x = true ->
       exists blk ats tx, enc_field L (enc k) dns f x nk = Ok (blk, ats, tx)
         /\ Forall plain ats
@@ -331,7 +461,14 @@ Section RT.
         /\ (f_kind f = KData -> nk = true -> data_fact f x tx)
         /\ kids_pass f x blk /\ atts_pass f x ats.
     Proof.
-      intros Hf Hc. unfold field_conf in Hc.
+      intros Hin Hshape Hc. unfold field_conf in Hc.
+      assert (f_kind f = KElem -> lookup_member fields fields (wns dns f) (wname f) = Some f) as Hf.
+      { intro Ek'. apply lookup_member_ok; [exact Hwire|exact Hin|]. unfold field_shape_ok in Hshape. rewrite Ek' in Hshape.
+        destruct (f_sub_ns f) as [[|? ?]|]; try discriminate; cbn in Hshape; congruence. }
+      assert (f_kind f = KAttr -> lookup_attr fields fields [] (wname f) = Some f) as Hfa.
+      { intro Ek'. apply lookup_attr_ok; [exact Hwire|exact Hin|]. unfold field_shape_ok in Hshape. rewrite Ek' in Hshape.
+        apply andb_true_iff in Hshape. destruct Hshape as [Hshape _]. apply andb_true_iff in Hshape. destruct Hshape as [_ Hshape].
+        destruct (f_sub_ns f); [discriminate|reflexivity]. }
       apply andb_true_iff in Hc. destruct Hc as [Hc Hk].
       apply andb_true_iff in Hc. destruct Hc as [Hmin _].
       unfold enc_field. destruct (f_kind f) eqn:Ek.
@@ -348,21 +485,21 @@ Section RT.
                replace (0 <? f_min f) with false by lia. reflexivity.
             -- apply pass_nothing_a; unfold kval, kocc; rewrite Ek; reflexivity.
           * (* a list *)
-            destruct (mapM_Forall2 (enc k (f_ty f) dns (f_name f))
-                        (fun y e => (exists ns a tx ks, wire e = XElt ns (f_name f) a tx ks)
+            destruct (mapM_Forall2 (enc k (f_ty f) (wns dns f) (wname f))
+                        (fun y e => (exists a tx ks, wire e = XElt (wns dns f) (wname f) a tx ks)
                                     /\ decf f (wire e) = Ok (norm k (f_ty f) y)) xs) as [es [He HF]].
             { intros y Hy. rewrite forallb_forall in Hk. specialize (Hk y Hy).
               apply andb_true_iff in Hk. destruct Hk as [Hn Hx].
-              destruct (one_elt f dns y Hx) as [a [tx [ks [H1 H2]]]].
+              destruct (one_elt f (wns dns f) y Hx) as [a [tx [ks [H1 H2]]]].
               { intro Hne. rewrite Hne in Hn. exact Hn. }
               eexists. split; [exact H1|]. split; [|exact H2]. rewrite wire_elt. eauto. }
             rewrite He. cbn [bind]. exists es, [], None. split; [reflexivity|]. split; [constructor|].
             split; [congruence|]. split; [reflexivity|]. split; [discriminate|]. split.
             -- intros st fr Hst. unfold dval in Hst. rewrite Ek in Hst.
-               assert (Forall2 (fun e v => (exists ns a tx ks, e = XElt ns (f_name f) a tx ks) /\ decf f e = Ok v)
+               assert (Forall2 (fun e v => (exists a tx ks, e = XElt (wns dns f) (wname f) a tx ks) /\ decf f e = Ok v)
                                (map wire es) (map (norm k (f_ty f)) xs)) as HF2.
                { clear - HF. induction HF; cbn; constructor; auto. }
-               destruct (block_multi f Hf Ek Em _ _ HF2 st fr []) as [st' [H1 [H2 [H3 H4]]]].
+               destruct (block_multi f (wns dns f) (Hf eq_refl) Ek Em _ _ HF2 st fr []) as [st' [H1 [H2 [H3 H4]]]].
                { rewrite Hst. reflexivity. }
                exists st', (repeat (f_name f) (length (map wire es)) ++ fr). split; [exact H1|]. split; [|split].
                ++ unfold kval, norm_field. rewrite Ek, Em. destruct xs as [|y ys].
@@ -375,24 +512,24 @@ Section RT.
         + (* single-valued *)
           apply andb_true_iff in Hk. destruct Hk as [Hn Hx].
           assert (x <> VNone \/ (0 <? f_min f) = true ->
-                  exists e, enc k (f_ty f) dns (f_name f) x = Ok e /\ kids_pass f x [e]) as Hone.
+                  exists e, enc k (f_ty f) (wns dns f) (wname f) x = Ok e /\ kids_pass f x [e]) as Hone.
           { intro Hcase.
-            destruct (one_elt f dns x Hx) as [a [tx [ks [H1 H2]]]].
+            destruct (one_elt f (wns dns f) x Hx) as [a [tx [ks [H1 H2]]]].
             { intro Hne. destruct x as [|pv0| |]; try discriminate.
               - destruct Hcase as [Hcase|Hcase]; [congruence|].
                 apply orb_true_iff in Hn. destruct Hn as [Hn|Hn]; [lia|exact Hn].
               - rewrite Hne in Hn. exact Hn. }
             eexists. split; [exact H1|]. intros st fr Hst.
             exists (setattr st (f_name f) (norm k (f_ty f) x)), (f_name f :: fr). split; [|split; [|split]].
-            - intro rest. cbn [map app]. rewrite wire_elt in *. apply block_single; assumption.
+            - intro rest. cbn [map app]. rewrite wire_elt in *. apply block_single; [exact (Hf eq_refl)|exact Ek|exact Em|exact H2].
             - rewrite getattr_set_same. unfold kval, norm_field. rewrite Ek, Em. reflexivity.
             - intros key Hkey. apply getattr_set_other. congruence.
             - intro key. cbn [count_text]. unfold kocc, occ. rewrite Ek.
               destruct x; try reflexivity.
               + destruct Hcase as [Hcase|Hcase]; [congruence|]. rewrite Hcase. reflexivity.
               + rewrite Em. reflexivity. }
-          assert (forall e, enc k (f_ty f) dns (f_name f) x = Ok e -> kids_pass f x [e] ->
-                  exists blk ats tx, (do e0 <- enc k (f_ty f) dns (f_name f) x; Ok ([e0], [], None)) = Ok (blk, ats, tx)
+          assert (forall e, enc k (f_ty f) (wns dns f) (wname f) x = Ok e -> kids_pass f x [e] ->
+                  exists blk ats tx, (do e0 <- enc k (f_ty f) (wns dns f) (wname f) x; Ok ([e0], [], None)) = Ok (blk, ats, tx)
                     /\ Forall plain ats /\ (KElem <> KElem -> blk = []) /\ (KElem <> KData -> tx = None)
                     /\ (KElem = KData -> nk = true -> data_fact f x tx) /\ kids_pass f x blk /\ atts_pass f x ats) as Hfin.
           { intros e He Hp. rewrite He. cbn [bind]. exists [e], [], None. split; [reflexivity|]. split; [constructor|].
@@ -419,14 +556,14 @@ Section RT.
           * apply pass_nothing_a; unfold kval, kocc, occ, norm_field; rewrite Ek; reflexivity.
         + destruct (xconf_leaf _ _ Hx) as [Hp Hok].
           destruct (Hleaf l pv Hp Hok) as [s [Hs [Hr [Hv _]]]]. rewrite Hs. cbn [bind].
-          exists [], [([], f_name f, s)], None. split; [reflexivity|].
+          exists [], [([], wname f, s)], None. split; [reflexivity|].
           split; [constructor; [reflexivity|constructor]|]. split; [reflexivity|]. split; [reflexivity|].
           split; [discriminate|]. split.
           * apply pass_nothing_k; unfold kval, dval, kocc; rewrite Ek; reflexivity.
           * intros st fr Hst. exists (setattr st (f_name f) (VLeaf pv)), (f_name f :: fr).
             destruct (Hv (f_nillable f)) as [V1 V2].
             split; [|split; [|split]].
-            -- intro rest. cbn [app dec_atts clark]. rewrite Hf, Ek, Et, V1, Hr. cbn [negb bind of_opt].
+            -- intro rest. cbn [app dec_atts]. rewrite (Hfa eq_refl), Ek, Et, V1, Hr. cbn [negb bind of_opt].
                rewrite andb_false_r, V2. cbn [negb]. rewrite andb_false_r. reflexivity.
             -- rewrite getattr_set_same. unfold norm_field. rewrite Ek. reflexivity.
             -- intros key Hkey. apply getattr_set_other. congruence.
@@ -476,7 +613,7 @@ Section RT.
 
     Lemma members_rt : forall fl vals nk,
       length fl = length vals ->
-      (forall p, In p fl -> find_field (f_name (snd p)) fields = Some (snd p)) ->
+      (forall p, In p fl -> In (snd p) fields /\ field_shape_ok (snd p) = true) ->
       nodup_text (names fl) = true ->
       forallb (fun fv => field_conf (xconf k) (fst fv) (snd fv)) (combine (map snd fl) vals) = true ->
       count_kind KData (map snd fl) <= 1 ->
@@ -491,7 +628,7 @@ Section RT.
                /\ (forall f x, In (f, x) (combine (map snd fl) vals) -> getattr st' (f_name f) = dval f x))
         /\ (forall st fr, (forall f x, In (f, x) (combine (map snd fl) vals) -> getattr st (f_name f) = dval f x) ->
              exists st' fr',
-               (forall rest, dec_kids decf fields (map wire kids ++ rest) st fr = dec_kids decf fields rest st' fr')
+               (forall rest, dec_kids decf fields fields (map wire kids ++ rest) st fr = dec_kids decf fields fields rest st' fr')
                /\ (forall key, ~ In key (names fl) ->
                      getattr st' key = getattr st key /\ count_text key fr' = count_text key fr)
                /\ (forall f x, In (f, x) (combine (map snd fl) vals) ->
@@ -499,7 +636,7 @@ Section RT.
                      /\ count_text (f_name f) fr' = kocc f x + count_text (f_name f) fr))
         /\ (forall st fr, (forall f x, In (f, x) (combine (map snd fl) vals) -> getattr st (f_name f) = kval f x) ->
              exists st' fr',
-               (forall rest, dec_atts L C fields (atts ++ rest) st fr = dec_atts L C fields rest st' fr')
+               (forall rest, dec_atts L C fields fields (atts ++ rest) st fr = dec_atts L C fields fields rest st' fr')
                /\ (forall key, ~ In key (names fl) ->
                      getattr st' key = getattr st key /\ count_text key fr' = count_text key fr)
                /\ (forall f x, In (f, x) (combine (map snd fl) vals) ->
@@ -520,6 +657,7 @@ Section RT.
         cbn [map snd count_kind] in Hcnt. unfold has_kind in Hshape. cbn [map snd existsb] in Hshape.
         fold (has_kind KData (map snd fl)) in Hshape. fold (has_kind KElem (map snd fl)) in Hshape.
         destruct (field_rt dns f x nk) as [blk [ats [tx1 [He [Hplain [Hblk [Htx [Hdf [Hkp Hap]]]]]]]]].
+        { apply (Hfind (dns, f)). left. reflexivity. }
         { apply (Hfind (dns, f)). left. reflexivity. }
         { exact Hcf. }
         assert (count_kind KData (map snd fl) >= 0) as Hge.
@@ -650,14 +788,16 @@ Section RT.
       apply andb_true_iff in Hx. destruct Hx as [Hd Hx]. apply Nat.eqb_eq in Hd. subst d.
       destruct (flat_fields U c) as [ffs|] eqn:Eff; [|discriminate].
       apply andb_true_iff in Hx. destruct Hx as [Hlen Hconf]. apply Nat.eqb_eq in Hlen.
-      destruct (wf_flat U c ffs Hwf Eff) as [Hnd Hcont].
+      destruct (wf_flat U c ffs Hwf Eff) as [Hwire [Hcont Hshapes]].
+      pose proof (proj1 (nodup_app _ _ Hwire)) as Hnd.
       unfold flat_fields in Eff. destruct (flat_decl U c) as [fds|] eqn:Efd; [|discriminate].
       cbn [option_map] in Eff. injection Eff as Hsnd.
       unfold flat_content_ok in Hcont. apply andb_true_iff in Hcont. destruct Hcont as [Hc1 Hc2].
       apply Z.leb_le in Hc1.
-      destruct (members_rt k IH ffs fds fs true) as [kids [atts [tx [Henc [Hplain [_ [_ [Hdp [Hk Ha]]]]]]]]].
+      destruct (members_rt k IH ffs Hwire fds fs true) as [kids [atts [tx [Henc [Hplain [_ [_ [Hdp [Hk Ha]]]]]]]]].
       { rewrite <- Hlen, <- Hsnd, map_length. reflexivity. }
-      { intros p Hp. apply find_field_nodup; [exact Hnd|]. rewrite <- Hsnd. apply in_map. exact Hp. }
+      { intros p Hp. assert (In (snd p) ffs) as Hi by (rewrite <- Hsnd; apply in_map; exact Hp).
+        split; [exact Hi|]. rewrite forallb_forall in Hshapes. exact (Hshapes _ Hi). }
       { unfold names. rewrite <- (map_map snd f_name), Hsnd. exact Hnd. }
       { rewrite Hsnd. exact Hconf. }
       { rewrite Hsnd. exact Hc1. }
@@ -665,7 +805,7 @@ Section RT.
       exists atts, tx, kids. split.
       { cbn [XmlX.enc]. rewrite Nat.eqb_refl. cbn [negb]. rewrite Efd, Henc. reflexivity. }
       rewrite wire_elt. cbn [XmlX.dec]. rewrite (is_nil_plain atts Hplain).
-      unfold flat_fields. rewrite Efd. cbn [option_map]. rewrite Hsnd.
+      unfold flat_fields. rewrite Efd. cbn [option_map]. rewrite Hsnd, alt_inherited.
       destruct (Hdp []) as [st0 [D1 [_ D3]]]; [reflexivity|]. rewrite Hsnd in D1, D3. rewrite D1. cbn [bind].
       destruct (Hk st0 []) as [st1 [fr1 [K1 [K2 K3]]]].
       { intros f x Hin. rewrite Hsnd in Hin. apply D3. exact Hin. }
